@@ -262,19 +262,43 @@ struct Version {
     plaintext: &'static [u8],
 }
 
+/// Encryption to the owner's public key with a fixed random stream: the fixtures (and with them every verdict of this
+/// check) are the same in every run.
+fn sealed_with(plaintext: &[u8], seed: u64) -> Vec<u8> {
+    use bls::rand::SeedableRng;
+    let mut rng = bls::rand::rngs::StdRng::seed_from_u64(seed);
+    bls_sk(OWNER).public_key().encrypt_with_rng(&mut rng, plaintext).to_bytes()
+}
+
 fn sealed(plaintext: &[u8]) -> Vec<u8> {
-    bls_sk(OWNER).public_key().encrypt(plaintext).to_bytes()
+    sealed_with(plaintext, 0xc15)
+}
+
+/// A ciphertext of `plaintext` that sorts *below* `above` byte-wise (the seed is searched, deterministically).
+fn sealed_below(plaintext: &[u8], above: &[u8]) -> Vec<u8> {
+    for seed in 1..10_000u64 {
+        let c = sealed_with(plaintext, seed);
+        if c.as_slice() < above {
+            return c;
+        }
+    }
+    panic!("no seed gives a smaller ciphertext");
 }
 
 fn versions() -> Vec<Version> {
     let owner_pk = bls_sk(OWNER).public_key();
     let key = NetworkAddress::from_scratchpad_address(ant_protocol::storage::ScratchpadAddress::new(owner_pk)).to_record_key();
     let under_key = |p: &Scratchpad| record(key.clone(), try_serialize_record(p, RecordKind::Scratchpad).unwrap());
-    let valid = |c: u64, pt: &'static [u8]| ScratchpadMirror::build(owner_pk, c, &sealed(pt), Some(&bls_sk(OWNER)));
-    let v1 = valid(1, b"one");
-    let v2 = valid(2, b"two");
-    let v2b = valid(2, b"two-b");
-    let v3 = valid(3, b"three");
+    // the ciphertexts of the authentic versions sort in the *reverse* order of their counters, so that picking "the
+    // latest" by anything but the counter (a derived ordering of the whole struct, say) picks the wrong one
+    let with_ct = |c: u64, ct: &[u8]| ScratchpadMirror::build(owner_pk, c, ct, Some(&bls_sk(OWNER)));
+    let ct1 = sealed(b"one");
+    let ct2 = sealed_below(b"two", &ct1);
+    let ct3 = sealed_below(b"three", &ct2);
+    let v1 = with_ct(1, &ct1);
+    let v2 = with_ct(2, &ct2);
+    let v2b = with_ct(2, &sealed_with(b"two-b", 77));
+    let v3 = with_ct(3, &ct3);
     // the owner's own old ciphertext, counter raised, no signature
     let m1 = ScratchpadMirror::from_real(&v1);
     let unsigned9 = ScratchpadMirror { counter: 9, signature: None, ..clone_mirror(&m1) }.into_real();
